@@ -1,12 +1,43 @@
-(** C06 — OER encodings are byte-exact X.696.  Statements only; the model is
-    Oer/OerImpl.v, the specification Oer/X696.v, proofs in Oer/*Proofs.v. *)
+(** C06 — OER encodings are byte-exact X.696.  Statements only.
+    Model of asn1tools/codecs/oer.py: Oer/OerPrim.v, Oer/OerImpl.v (tied to
+    /repo by harness/c06.py on every run); specification model: Oer/X696.v
+    (pinned by Oer/X696Vectors.v); regions: Oer/OerScope.v ([oer_ok],
+    [oer_norm]) and Oer/X696Scope.v ([x_conf], [in_scope]); proofs in
+    Oer/OerPrimProofs*.v, Oer/OerProofs.v, Oer/X696Proofs.v; witnesses of the
+    excluded finding regions in Oer/OerFindings.v. *)
 From Asn1V Require Import Base.Prelude Syntax.Asn1.
-From Asn1V Require Import Oer.OerPrim Oer.OerImpl Oer.OerScope Oer.X696 Oer.OerPrimProofs Oer.OerProofs.
+From Asn1V Require Import Oer.OerPrim Oer.OerImpl Oer.OerScope Oer.X696 Oer.X696Scope.
+From Asn1V Require Import Oer.OerPrimProofs Oer.OerProofs Oer.X696Proofs Oer.OerFindings.
 
-(** Decoder accepts exactly the encoder's octets: for every type/value of the
-    region [oer_ok] (Oer/OerScope.v), every fuel and every tail, decoding the
-    encoding followed by the tail returns the normalised value and consumes
-    exactly the encoding. *)
+(** The encoder emits exactly the octets X.696 prescribes: on the conforming
+    region the implementation model and the specification model are the same
+    partial function (same octets, and one fails exactly when the other does),
+    for every fuel, environment, type and value of the universe: BOOLEAN,
+    INTEGER (all width classes and both variable forms), ENUMERATED (short and
+    long form), NULL, BIT STRING, OCTET STRING, the four one-octet
+    known-multiplier string types and UTF8String, OBJECT IDENTIFIER,
+    SEQUENCE/SET with OPTIONAL/DEFAULT and extension additions, SEQUENCE OF /
+    SET OF, CHOICE with extension alternatives, references, recursion. *)
+Theorem C06_oer_refines_x696 :
+  forall numeric e fuel t v,
+    in_scope numeric fuel e t v = true ->
+    x696_encode numeric fuel e t v =
+    match oer_encode numeric fuel e t v with Ok bs => Some bs | Err _ => None end.
+Proof. exact oer_refines_x696. Qed.
+Print Assumptions C06_oer_refines_x696.
+
+(** ... and the decoder accepts exactly those octets: whatever follows them,
+    it returns the normalised value and consumes exactly the encoding. *)
+Theorem C06_oer_dec_accepts :
+  forall numeric fuel e t v bs,
+    in_scope numeric fuel e t v = true ->
+    x696_encode numeric fuel e t v = Some bs ->
+    forall tail, oer_decode numeric fuel e t (bs ++ tail) = Ok (oer_norm fuel e t v, length bs).
+Proof. exact oer_dec_accepts. Qed.
+Print Assumptions C06_oer_dec_accepts.
+
+(** Round trip on the (larger) region [oer_ok], which also covers addition
+    groups, explicit DEFAULT values in additions and [UNIVERSAL] tags. *)
 Theorem C06_oer_roundtrip :
   forall numeric fuel e t v bs,
     oer_ok numeric fuel e t v = true -> oer_encode numeric fuel e t v = Ok bs ->
@@ -14,8 +45,8 @@ Theorem C06_oer_roundtrip :
 Proof. exact oer_roundtrip. Qed.
 Print Assumptions C06_oer_roundtrip.
 
-(** ... and nothing shorter: every strict prefix of an encoding is rejected
-    with the library's decode error (never a foreign exception, never a value). *)
+(** Nothing shorter is accepted: every strict prefix of an encoding is
+    rejected with the library's decode error. *)
 Theorem C06_oer_truncation :
   forall numeric fuel e t v bs,
     oer_ok numeric fuel e t v = true -> oer_encode numeric fuel e t v = Ok bs ->
@@ -23,3 +54,60 @@ Theorem C06_oer_truncation :
     exists x, oer_decode numeric fuel e t p = Err x /\ is_decode_error x = true.
 Proof. exact oer_truncation. Qed.
 Print Assumptions C06_oer_truncation.
+
+(** The excluded regions are genuine: concrete witnesses on which library
+    behaviour (as modelled) and X.696 differ. *)
+Theorem C06_utf8_fixed_size_refuted :
+  oer_encode false 3 [] utf8_fixed_ty utf8_fixed_val = Ok (hex "61c3a5626364") /\
+  x696_encode false 3 [] utf8_fixed_ty utf8_fixed_val = Some (hex "0661c3a5626364") /\
+  oer_decode false 3 [] utf8_fixed_ty (hex "61c3a5626364") = Ok (VStr [97; 229; 98; 99], 5%nat) /\
+  oer_ok false 3 [] utf8_fixed_ty utf8_fixed_val = false.
+Proof. exact oer_utf8_fixed_size_refuted. Qed.
+Print Assumptions C06_utf8_fixed_size_refuted.
+
+Theorem C06_addition_groups_refuted :
+  oer_encode false 3 [] group_ty group_val = Ok (hex "80ff0206c0020101020102") /\
+  x696_encode false 4 [] group_ty group_val = Some (hex "80ff0207800401010102") /\
+  x_conf 3 [] group_ty group_val = false.
+Proof. exact oer_addition_groups_refuted. Qed.
+Print Assumptions C06_addition_groups_refuted.
+
+Theorem C06_universal_class_tag_refuted :
+  oer_encode false 3 [] univ_ty univ_val = Ok (hex "85ff") /\
+  x696_encode false 3 [] univ_ty univ_val = Some (hex "05ff") /\
+  x_conf 3 [] univ_ty univ_val = false.
+Proof. exact oer_universal_class_tag_refuted. Qed.
+Print Assumptions C06_universal_class_tag_refuted.
+
+(** Non-vacuity: a recursive environment with an extensible SEQUENCE holding
+    OPTIONAL and DEFAULT members, an extensible-range INTEGER with a negative
+    value, a long-form ENUMERATED, a CHOICE with an extension alternative, a
+    SEQUENCE OF and two additions (one absent) lies inside [in_scope], is
+    encoded, and the encoding is the specification's. *)
+Definition ex_env : env :=
+  [("T"%string,
+    TSeq false
+         [("i"%string, TInt (IcRange (Some 0) (Some 10) true), Mandatory);
+          ("o"%string, TBool, Optional);
+          ("d"%string, TInt (IcRange (Some 0) (Some 255) false), Default (VInt 7));
+          ("e"%string, TEnum [("a"%string, 0); ("b"%string, 70000)] (Some [("c"%string, -129)]), Mandatory);
+          ("c"%string, TChoice [("x"%string, TNull, Mandatory)]
+                               (Some [("y"%string, TStr SkUTF8 SzNone None, Mandatory)]), Mandatory);
+          ("l"%string, TSeqOf false (TRef "T"%string) SzNone, Mandatory)]
+         (Some [(false, [("a1"%string, TOctets (SzRange 2 (Some 2) false), Optional)]);
+                (false, [("a2"%string, TBits None SzNone, Mandatory)])]))].
+Definition ex_val : value :=
+  VSeq [("i"%string, VInt (-5)); ("d"%string, VInt 7); ("e"%string, VEnum "c"%string);
+        ("c"%string, VChoice "y"%string (VStr [97; 229]));
+        ("l"%string, VList [VSeq [("i"%string, VInt 300); ("o"%string, VBool true); ("d"%string, VInt 8);
+                                  ("e"%string, VEnum "b"%string); ("c"%string, VChoice "x"%string VNone);
+                                  ("l"%string, VList [])]]);
+        ("a2"%string, VBits [255] 3)].
+Example C06_hypotheses_inhabited :
+  in_scope false 12 ex_env (TRef "T"%string) ex_val = true /\
+  oer_encode false 12 ex_env (TRef "T"%string) ex_val
+  = Ok (hex "8001fb82ff7f81040361c3a501016002012cff0883011170800100020640030205e0") /\
+  x696_encode false 12 ex_env (TRef "T"%string) ex_val
+  = Some (hex "8001fb82ff7f81040361c3a501016002012cff0883011170800100020640030205e0").
+Proof. repeat split; vm_compute; reflexivity. Qed.
+Print Assumptions C06_hypotheses_inhabited.
